@@ -11,7 +11,6 @@ import (
 	"encoding/hex"
 	"errors"
 	"fmt"
-	"math"
 	"os"
 	"path/filepath"
 	"sync"
@@ -133,8 +132,7 @@ func (l *ScriptedLN) CreateInvoice(amount uint64) (lightning.Invoice, error) {
 	li, err := l.makeInvoice(enc, false)
 	if err == nil && huge {
 		li.amount = amount
-		li.msat = math.MaxUint64 // saturated: ledger monitors skip histories with such invoices settled
-		li.huge = true
+		li.huge = true // the invoice text carries a token 1000 msat: ledger monitors skip histories where it is paid
 	}
 	if err != nil {
 		l.Calls = append(l.Calls, LnCall{Kind: "CreateInvoice", Hash: -1, Answer: "err-encode"})
@@ -249,7 +247,8 @@ func (l *ScriptedLN) FeeReserve(amount uint64) uint64 {
 	if !l.feePct {
 		return 0
 	}
-	return uint64(math.Ceil(float64(amount) * lightning.FeePercent))
+	// ceil(1%) in integer arithmetic (LND/CLN compute it in float64; the mint is generic in this function)
+	return (amount + 99) / 100
 }
 
 type scriptedSub struct {
@@ -636,6 +635,10 @@ func (e *MintEnv) refreshKeysets() {
 // Restart closes the mint cleanly and loads it again from the same directory.
 func (e *MintEnv) Restart(rotate bool, feePpk uint) error {
 	e.M.Shutdown()
+	// Shutdown cancels the watchers' contexts: their subscriptions are gone
+	e.LN.mu.Lock()
+	e.LN.subs = map[string][]chan lightning.Invoice{}
+	e.LN.mu.Unlock()
 	e.Opts.FeePpk = feePpk
 	return e.load(rotate)
 }
